@@ -1,7 +1,9 @@
 //! Text-level monitors: token positions (C12), formatter (C08/C09), crash
 //! monitors (C10/C11), source maps (C13), migrator (C23), pretty printer (C28).
 
+mod c0809;
 mod c12;
+mod util;
 
 use vcommon::Args;
 
@@ -9,6 +11,7 @@ fn main() {
     vcommon::pool::install_panic_hook();
     let args = Args::parse();
     match args.prop.as_str() {
+        "C08" | "C09" => c0809::main(args),
         "C12" => c12::main(args),
         p => {
             eprintln!("mon_text: unknown property {p}");
